@@ -162,10 +162,42 @@ def strata(tier):
     return out
 
 
+def validate(case):
+    """cases the shrinker may propose: the grid stays inside the statement (cutoff > 0) and a grid given through its
+    step still means the row count the case states"""
+    try:
+        if not (case["cutoff"] > 0 and case["nr"] >= 1):
+            return False
+        if case.get("grid_spec"):
+            return case["cutoff"] == (case["nr"] - 1) * float(case["dr_given"])
+    except Exception:
+        return False
+    return True
+
+
 def budget(tier):
     if tier == "quick":
         return {"examples": 220}
     return {"examples": 800, "shards": 16}
+
+
+def _functions_fail_on_grid(text, nr, delpot):
+    """True when one of the model's own potential functions raises an arithmetic error at a separation the table
+    holds (rows delpot .. nr*delpot) - e.g. the closed-form slope of as.tang_toennies beyond b*r = 375, where its
+    exp() overflows: such a model cannot be tabulated in any format (a failing function is C17's subject) and is
+    outside this check.  Evaluated through Configuration, not through the DL_POLY writer."""
+    try:
+        from atsim.potentials.config import Configuration
+        tab = Configuration().read(io.StringIO(text))
+        for pot in tab.potentials:
+            for i in range(1, nr + 1):
+                pot.energy(i * delpot)
+                pot.force(i * delpot)
+    except (OverflowError, ZeroDivisionError, ValueError):
+        return True
+    except Exception:
+        return False
+    return False
 
 
 def _text(case, target):
@@ -278,6 +310,8 @@ def check_case(case):
             # 'main': potable's own main() in this process, writing to a path that does not exist beforehand
             res = libroute.run_potable([], ctx) if route == "cli" else libroute.run_potable_main([], ctx, preexisting=False)
             if accept:
+                if res["rc"] == 1 and not res["out"] and _functions_fail_on_grid(ctx, nr, cutoff / (nr - 4.0)):
+                    return {"v": [], "cls": cls + ["skipped:function_fails_on_grid"], "nt": False, "skip": True}
                 if res["rc"] != 0 or res["out"] is None:
                     return {"v": [("cli:failed", "rc=%r %s\n%s" % (res["rc"], res["stderr"][-500:], ctx))], "cls": cls, "nt": False}
                 out = res["out"].decode()
